@@ -68,18 +68,25 @@ Proof. exact request_is_expansion_proof. Qed.
 Print Assumptions request_is_expansion.
 
 (* Which PART of the output the window shows (scroll machine of model/PreviewModel.v: goroutine 2 of one command and
-   the render loop's handling of its results).  For every timing of output lines, 100 ms ticks, the end of the output
-   and redraws: once the command has ended and every result has been handled, the window holds all n lines of the
-   output and stands at the offset the request asked for (spec: final_offset of requested_offset), provided no
-   pending result was replaced in the one-slot mailbox before the render loop handled it (k_lost) and no partial
-   result was published when exactly `req` lines had arrived (k_edge).  Both exceptions are real for the code:
-   scroll_offset_refuted_edge (known finding c20-scroll-edge) and scroll_offset_refuted_overwrite. *)
+   the render loop's handling of its results; GateGt = the tree since 01c8ad4).  For every timing of output lines,
+   100 ms ticks, the end of the output and redraws: once the command has ended and every result has been handled, the
+   window holds all n lines of the output and stands at the offset the request asked for (spec: final_offset of
+   requested_offset), provided no pending result was replaced in the one-slot mailbox before the render loop handled
+   it (k_lost; real for the code: scroll_offset_refuted_overwrite).  The statement is about commands that END: a
+   never-ending command that prints fewer lines than the offset is never rendered (scroll_starved_refuted, known
+   finding c20-offset-gate-starves-short-output). *)
 Theorem scroll_offset_applied : forall req headers w0 sched,
-  let s := srun true req headers sched (sinit req w0) in
-  sdone s = true -> k_lost s = false -> k_edge s = false ->
+  let s := srun GateGt req headers sched (sinit req w0) in
+  sdone s = true -> k_lost s = false ->
   k_wn s = k_n s /\ k_woff s = final_offset req headers (k_n s).
 Proof. exact scroll_offset_applied_proof. Qed.
 Print Assumptions scroll_offset_applied.
+
+(* with the `>` condition no partial result is published while the requested line is missing *)
+Theorem scroll_no_edge : forall req headers w0 sched,
+  k_edge (srun GateGt req headers sched (sinit req w0)) = false.
+Proof. exact scroll_no_edge_proof. Qed.
+Print Assumptions scroll_no_edge.
 
 (* ---------------------------------------------------------------- regression witnesses (vm_compute) *)
 
@@ -154,25 +161,37 @@ Proof. vm_compute. repeat split; reflexivity. Qed.
 
 Fixpoint rep {A} (n : nat) (x : A) : list A := match n with O => [] | S k => x :: rep k x end.
 
-(* request: offset 3 (line 4 on top).  2 lines, two ticks (nothing is rendered: the requested line is not there),
-   8 more lines, end of output: the window holds 10 lines at offset 3 *)
+(* request: offset 3 (line 4 on top).  2 lines, then exactly 3 lines, ticks (nothing is rendered: the requested line
+   is not there), 7 more lines, the second tick publishes, one more line, end of output: 11 lines at offset 3 *)
 Example scroll_nonvacuous :
-  let s := srun true 3 0 (rep 2 GLine ++ [GTick; GTick; GTick] ++ rep 8 GLine ++ [GTick; RDisplay; GLine; GEof; RDisplay]) (sinit 3 0) in
+  let s := srun GateGt 3 0 (rep 2 GLine ++ [GTick; GTick; GLine; GTick; GTick; GTick] ++ rep 7 GLine ++ [GTick; GTick; RDisplay; GLine; GEof; RDisplay]) (sinit 3 0) in
   sdone s = true /\ k_lost s = false /\ k_edge s = false /\ k_wn s = 11 /\ k_woff s = 3.
 Proof. vm_compute. repeat split; reflexivity. Qed.
-(* the machine WITHOUT the `len(lines) >= initialOffset` condition: the partial result uses up the offset *)
+(* the machine WITHOUT the condition on initialOffset: the partial result uses up the offset *)
 Example scroll_offset_refuted_no_gate :
-  let s := srun false 3 0 (rep 2 GLine ++ [GTick; GTick; RDisplay] ++ rep 8 GLine ++ [GEof; RDisplay]) (sinit 3 0) in
+  let s := srun GateNone 3 0 (rep 2 GLine ++ [GTick; GTick; RDisplay] ++ rep 8 GLine ++ [GEof; RDisplay]) (sinit 3 0) in
   sdone s = true /\ k_lost s = false /\ k_edge s = false /\ k_wn s = 10 /\ k_woff s = 1 /\ final_offset 3 0 (k_n s) = 3.
 Proof. vm_compute. repeat split; reflexivity. Qed.
-(* the tree today (known finding c20-scroll-edge): exactly `req` lines at the tick: clamped one line short *)
-Example scroll_offset_refuted_edge :
-  let s := srun true 3 0 (rep 3 GLine ++ [GTick; GTick; RDisplay] ++ rep 7 GLine ++ [GEof; RDisplay]) (sinit 3 0) in
+(* the tree before 01c8ad4 (`>=`): exactly `req` lines at the tick: clamped one line short *)
+Example scroll_offset_refuted_edge_old :
+  let s := srun GateGe 3 0 (rep 3 GLine ++ [GTick; GTick; RDisplay] ++ rep 7 GLine ++ [GEof; RDisplay]) (sinit 3 0) in
   sdone s = true /\ k_lost s = false /\ k_edge s = true /\ k_woff s = 2 /\ final_offset 3 0 (k_n s) = 3.
+Proof. vm_compute. repeat split; reflexivity. Qed.
+(* the same schedule on the tree: the ticks at 3 lines publish nothing, the window ends at offset 3 *)
+Example scroll_edge_repaired :
+  let s := srun GateGt 3 0 (rep 3 GLine ++ [GTick; GTick; RDisplay] ++ rep 7 GLine ++ [GEof; RDisplay]) (sinit 3 0) in
+  sdone s = true /\ k_lost s = false /\ k_woff s = 3.
 Proof. vm_compute. repeat split; reflexivity. Qed.
 (* the tree today: the partial result that carries the offset is replaced by the final one before the render loop
    has handled it (a window of microseconds; not observed on the real program) *)
 Example scroll_offset_refuted_overwrite :
-  let s := srun true 3 0 (rep 5 GLine ++ [GTick; GTick; GEof; RDisplay]) (sinit 3 7) in
+  let s := srun GateGt 3 0 (rep 5 GLine ++ [GTick; GTick; GEof; RDisplay]) (sinit 3 7) in
   sdone s = true /\ k_lost s = true /\ k_edge s = false /\ k_woff s = 7 /\ final_offset 3 0 (k_n s) = 3.
+Proof. vm_compute. repeat split; reflexivity. Qed.
+(* the tree today (known finding c20-offset-gate-starves-short-output): a command that never ends and prints no more
+   lines than the requested offset: however many ticks pass, no result is ever published, the window holds none of
+   its 3 lines and keeps the offset (and content) it had before *)
+Example scroll_starved_refuted :
+  let s := srun GateGt 3 0 (rep 3 GLine ++ rep 50 GTick ++ [RDisplay]) (sinit 3 7) in
+  k_eof s = false /\ k_n s = 3 /\ k_box s = None /\ k_wn s = 0 /\ k_woff s = 7 /\ k_lost s = false.
 Proof. vm_compute. repeat split; reflexivity. Qed.
